@@ -292,7 +292,8 @@ def hStartStage (c : Cfg) (s : State) (id i retry : Nat) : List Txn :=
   | .skip => [[.push (.completeWorkflow 0)]]
   | .notReady =>
     let anyActive := (c.reqs i).any (fun u => (s.stage u).status.isActive)
-    if !r.active.isEmpty && anyActive then []
+    if st.status != .notStarted then []      -- stale StartStage: the stage already left NOT_STARTED
+    else if !r.active.isEmpty && anyActive then []
     else if retry ≥ c.waitMax then
       if Status.canTransition st.status .terminal then
         [[.setStage i { st with status := .terminal, hasEx := true, jumpBypass := false }, .push (.completeStage i)]]
@@ -322,7 +323,8 @@ def processResult (c : Cfg) (st : StageSt) (id i t n : Nat) (oc : Outcome) : Lis
   | .failedContinue => [[.setStage i st, .mark id, .push (.completeTask i t .failedContinue)]]
   | .stopped => [[.setStage i st, .mark id, .push (.completeTask i t .stopped)]]
   | .suspend =>
-    if st.buffered > 0 then
+    if st.status != .running || (st.tasks.getD t default).status != .running then [[.mark id]]
+    else if st.buffered > 0 then
       [[.setStage i { st with buffered := st.buffered - 1, status := .running,
                               tasks := setTask st.tasks t (fun x => { x with status := .running }) },
         .mark id, .push (.runTask i t)]]
@@ -511,7 +513,52 @@ inductive Op where
   | deliverNoAck (id : Nat)     -- poll-claim, handle; the worker dies before mark + ack
   | cancel                      -- Orchestrator.cancel
   | signal (s : Nat) (persistent : Bool)
+  | crash (id : Nat) (k : Nat)  -- poll-claim, then the worker is killed after k durable commits of the delivery
+  | sweep                       -- WorkflowRecovery.recover_pending_workflows (one transaction)
   deriving Repr
+
+/-- `queue.has_pending_message_for_task(task.id)`: any queued row whose payload carries that task id -/
+def hasPendingForTask (s : State) (i t : Nat) : Bool :=
+  s.queue.any fun r =>
+    match r.msg with
+    | .startTask a b | .runTask a b | .completeTask a b _ => a == i && b == t
+    | _ => false
+
+/-- `WorkflowRecovery._can_start` -/
+def canStart (c : Cfg) (s : State) (i : Nat) : Bool :=
+  let sc := c.stage i
+  if sc.reqs.isEmpty then true
+  else if (sc.join == .discriminator || sc.join == .nOfM) && (s.stage i).joinFired then false
+  else if sc.join == .nOfM then
+    if sc.threshold > (sc.reqs.length : Int) then false
+    else (((sc.reqs.filter (fun u => (s.stage u).status.isContinuable)).length : Nat) : Int) ≥ sc.threshold
+  else sc.reqs.all (fun u => (s.stage u).status.isContinuable)
+
+/-- `WorkflowRecovery._has_started` -/
+def hasStarted (st : StageSt) : Bool := st.startSet || st.tasks.any (·.started)
+
+/-- messages `WorkflowRecovery._recover_workflow` pushes (all in one transaction) -/
+def sweepMsgs (c : Cfg) (s : State) : List Msg :=
+  if !(s.wfStatus == .running || s.wfStatus == .notStarted) then []
+  else
+    let requeue := (List.range c.n).filter fun i =>
+      let st := s.stage i
+      st.status == .running || (st.status == .notStarted && (hasStarted st || canStart c s i))
+    if requeue.isEmpty then (if s.wfStatus == .notStarted then [.startWorkflow] else [])
+    else requeue.flatMap fun i =>
+      let st := s.stage i
+      if st.status == .running then
+        let idx := List.range st.tasks.length
+        let running := idx.filter (fun t => (st.tasks.getD t default).status == .running)
+        let notStarted := idx.filter (fun t => (st.tasks.getD t default).status == .notStarted)
+        if !running.isEmpty then
+          (running.filter (fun t => !hasPendingForTask s i t)).map (fun t => Msg.runTask i t)
+        else if !notStarted.isEmpty && st.startSet then
+          match notStarted.head? with
+          | some t => if hasPendingForTask s i t then [] else [.startTask i t]
+          | none => []
+        else [.startStage i 0]
+      else [.startStage i 0]
 
 def claimRow (s : State) (id : Nat) : State :=
   { s with queue := s.queue.map (fun r => if r.id == id then { r with attempts := r.attempts + 1 } else r) }
@@ -526,32 +573,42 @@ def recordExec (c : Cfg) (s : State) (row : Row) : State :=
     { s1 with ledger := s1.ledger ++ [{ s := i, t := t, n := getCount s1 (i, t), seen := (s.stage i).data }] }
   | _ => s
 
+/-- run the handler on the claimed state: record the task execution (if any), then apply its
+    transactions — all of them, or only the first `k` when the worker is killed after `k` commits -/
+def afterHandle (c : Cfg) (s1 : State) (row : Row) (k : Option Nat) : State :=
+  let r := handle c s1 row
+  let s2 := if r.2 then recordExec c s1 row else s1
+  applyTxns s2 (match k with | none => r.1 | some k => r.1.take k)
+
+/-- a delivery of `row0` (already looked up) in mode `deliver` / `deliverNoAck` / `crash k` -/
+def deliverRow (c : Cfg) (s : State) (row0 : Row) (ack : Bool) (k : Option Nat) : State :=
+  let s1 := claimRow s row0.id
+  let row := { row0 with attempts := row0.attempts + 1 }
+  if s1.processed.contains row0.id then (if ack then ackRow s1 row0.id else s1)
+  else
+    let s3 := afterHandle c s1 row k
+    let done := match k with | none => true | some k => decide (k > (handle c s1 row).1.length)
+    if raises c s1 row then s3
+    else if ack then ackRow (applyEff s3 (.mark row0.id)) row0.id
+    else if done && k.isSome then applyEff s3 (.mark row0.id)
+    else s3
+
 def step (c : Cfg) (s : State) : Op → State
   | .deliver id =>
     match s.queue.find? (fun r => r.id == id) with
     | none => s
-    | some row0 =>
-      let s1 := claimRow s id
-      let row := { row0 with attempts := row0.attempts + 1 }
-      if s1.processed.contains id then ackRow s1 id
-      else
-        let (txns, ran) := handle c s1 row
-        let s2 := if ran then recordExec c s1 row else s1
-        let s3 := applyTxns s2 txns
-        if raises c s1 row then s3 else ackRow (applyEff s3 (.mark id)) id
+    | some row0 => deliverRow c s row0 true none
   | .deliverNoAck id =>
     match s.queue.find? (fun r => r.id == id) with
     | none => s
-    | some row0 =>
-      let s1 := claimRow s id
-      let row := { row0 with attempts := row0.attempts + 1 }
-      if s1.processed.contains id then s1
-      else
-        let (txns, ran) := handle c s1 row
-        let s2 := if ran then recordExec c s1 row else s1
-        applyTxns s2 txns
+    | some row0 => deliverRow c s row0 false none
+  | .crash id k =>
+    match s.queue.find? (fun r => r.id == id) with
+    | none => s
+    | some row0 => deliverRow c s row0 false (some k)
   | .cancel => applyEff s (.push .cancelWorkflow)
   | .signal i p => applyEff s (.push (.signalStage i p))
+  | .sweep => applyTxn s ((sweepMsgs c s).map Eff.push)
 
 def start (c : Cfg) : State := applyEff (initState c) (.push .startWorkflow)
 
@@ -569,7 +626,7 @@ def trace (c : Cfg) : State → List Op → List State
   spec = `<wfmaxj>#<stage>#...`, stage = `reqs/JOIN/threshold/cont/failp/enabled/maxj/tasks`,
          tasks = `o.o.o+o.o` (`-` = no tasks), outcome letters as in `harness/engine.py`
   ops  = comma separated: `d<id>` deliver, `x<id>` deliver without mark+ack, `c` cancel,
-         `g<s>.<0|1>` signal stage s (persistent?)
+         `g<s>.<0|1>` signal stage s (persistent?), `k<id>.<n>` crash after n commits, `w` recovery sweep
   answer = state line after every op joined by `|`, then `|A=<audit>|L=<ledger>` -/
 
 def parseOutcome (s : String) : Option Outcome :=
@@ -612,6 +669,11 @@ def parseOp (s : String) : Option Op :=
   if s == "c" then some .cancel
   else if s.startsWith "d" then (Parse.nat? (s.drop 1).toString).map Op.deliver
   else if s.startsWith "x" then (Parse.nat? (s.drop 1).toString).map Op.deliverNoAck
+  else if s == "w" then some .sweep
+  else if s.startsWith "k" then
+    match ((s.drop 1).toString).splitOn "." with
+    | [a, b] => do pure (.crash (← Parse.nat? a) (← Parse.nat? b))
+    | _ => none
   else if s.startsWith "g" then
     match ((s.drop 1).toString).splitOn "." with
     | [a, b] => do pure (.signal (← Parse.nat? a) (← Parse.bool? b))
